@@ -100,7 +100,7 @@ def c07(ctx):
     walks = os.path.join(WORK, "runs", "C07-walks.txt")
     os.makedirs(os.path.dirname(walks), exist_ok=True)
     gen_walks(ctx, walks, 60 if q else 600)
-    ctx.sim("seqwalk", 8 if q else 150, "mon/MonSeq.tla", "MonSeq.cfg", subcmd="seqwalk", extra_args=["--walks", walks], batch=50 if not q else 8)
+    ctx.sim("seqwalk", 8 if q else 90, "mon/MonSeq.tla", "MonSeq.cfg", subcmd="seqwalk", extra_args=["--walks", walks], batch=15 if not q else 8)
     ctx.sim("storm", 120 if q else 1500, LOOP, "MonLoop_C07.cfg", nontrivial=has_fault, conf=CONF)
     # long runs through the real dispatch: the Dublin / IPv6 payload derived from the sequence offset must fit its buffer,
     # and every regime crosses its wrap-around point
